@@ -29,6 +29,7 @@ type Rule struct {
 	Lab  string `json:"lab"`  // l1 | l2
 	Cmt  string `json:"cmt"`  // none | c1 | c2   (rule level control comment)
 	Pad  int    `json:"pad"`  // 0 nothing, 1 blank line, 2 plain comment line   in front of the rule
+	Ext  string `json:"ext"`  // x0 nothing, x1 "for: 5m", x2 an annotations map   (alerting rules only)
 }
 
 // File is one abstract rule file.
@@ -120,8 +121,15 @@ func RenderSpans(f File) (string, []Span) {
 			key = "alert"
 		}
 		first := line + 1
-		w(fmt.Sprintf("  - %s: %s\n    expr: %s\n    labels:\n", key, r.Name, Expr(r.Body)))
+		w(fmt.Sprintf("  - %s: %s\n    expr: %s\n", key, r.Name, Expr(r.Body)))
+		if r.Ext == "x1" {
+			w("    for: 5m\n")
+		}
+		w("    labels:\n")
 		w(labText[r.Lab])
+		if r.Ext == "x2" {
+			w("    annotations:\n      summary: s\n")
+		}
 		spans = append(spans, Span{first, line})
 	}
 	return b.String(), spans
